@@ -418,6 +418,49 @@ func c17Case(c *core.Ctx, idx int) {
 		}
 		rec.Count("late_registrations", 1)
 	}
+	// registering again, for element types, the very codecs the defaults use changes nothing - in
+	// particular not what the instance does with the slice and pointer types built on them ([]byte has
+	// a registration of its own, which a registration for uint8 must leave alone)
+	for _, in := range insts {
+		bt := reflect.StructOf([]reflect.StructField{sf("B", reflect.TypeOf([]byte(nil)), `plenc:"1"`), sf("BB", reflect.TypeOf([][]byte(nil)), `plenc:"2"`), sf("I", reflect.TypeOf([]int32(nil)), `plenc:"3"`), sf("P", reflect.PointerTo(tString), `plenc:"4"`), sf("S", reflect.SliceOf(tString), `plenc:"5"`), sf("U", reflect.TypeOf([]uint8(nil)), `plenc:"6"`)})
+		bv := reflect.New(bt).Elem()
+		bv.Field(0).SetBytes([]byte{0x80, 0xff, 0x01})
+		bv.Field(1).Set(reflect.ValueOf([][]byte{{0x90}, {}}))
+		bv.Field(2).Set(reflect.ValueOf([]int32{-1, 300}))
+		s := "p"
+		bv.Field(3).Set(reflect.ValueOf(&s))
+		bv.Field(4).Set(reflect.ValueOf([]string{"a", ""}))
+		bv.Field(5).SetBytes([]byte{0xfe})
+		want := in.expect(bv)
+		if r.IntN(2) == 0 {
+			// (half of the instances have used the type before the re-registration)
+			marshal(in.p, nil, ptrTo(bv))
+		}
+		in.p.RegisterCodec(reflect.TypeOf(uint8(0)), plenccodec.UintCodec[uint8]{})
+		in.p.RegisterCodec(reflect.TypeOf(int32(0)), plenccodec.IntCodec[int32]{})
+		in.p.RegisterCodec(tString, plenccodec.StringCodec{})
+		nt := reflect.StructOf(append([]reflect.StructField{sf("X", tInt, `plenc:"9"`)}, func() []reflect.StructField {
+			var fs []reflect.StructField
+			for i := 0; i < bt.NumField(); i++ {
+				fs = append(fs, bt.Field(i))
+			}
+			return fs
+		}()...))
+		nv := reflect.New(nt).Elem()
+		for i := 0; i < bt.NumField(); i++ {
+			nv.Field(i + 1).Set(bv.Field(i))
+		}
+		for _, tv := range []reflect.Value{bv, nv} {
+			got, err, pn := marshal(in.p, nil, ptrTo(tv))
+			rec.Eval(1)
+			if w := in.expect(tv); err != nil || pn != "" || !bytes.Equal(got, w) {
+				rec.Violation("scoping", fmt.Sprintf("%s: after registering the default codecs of uint8, int32 and string once more, slices and pointers of them are encoded differently: %v %s\n  got  %s\n  want %s", in.name, err, trunc1(pn), hexHead(got), hexHead(w)), extra)
+				return
+			}
+		}
+		_ = want
+		rec.Count("default_codecs_registered_again", 1)
+	}
 	// the package-level functions still behave like a default-configured instance
 	dt := reflect.StructOf([]reflect.StructField{sf("V", markedT, `plenc:"1"`), sf("N", markStrT, `plenc:"2"`), sf("S", reflect.SliceOf(tString), `plenc:"3"`), sf("T", model.TimeT, `plenc:"4"`), sf("T1", markedT, `plenc:"5,m1"`)})
 	dv := (&gen.VG{R: r, C: model.Cfg{}, Budget: 30}).Value(dt, "")
